@@ -79,6 +79,40 @@ def run(chk):
     if len(tables_ns) < RENAMED_NS_FLOOR:
         chk.add(Finding("R09-sites", "R09-sites::tables", "only %d namespaces have a rename table (9 on the pinned tree)" % len(tables_ns)))
 
+    # ordering: a reference site inside the merged-in module is rewritten before the field that holds it is moved to the destination
+    b0 = prog.bodies[mf.entry]
+    top = [(bi, t["res"]) for bi, t in b0.calls() if (t.get("res") or "").startswith("merge::") and t["res"] in prog.bodies]
+    reach = {fid: set(prog.reachable([fid])) | {fid} for _, fid in top}
+
+    def top_of(fid):
+        return [(bi, f) for bi, f in top if fid in reach[f]]
+    moves = {}
+    for ev in mf.S.events:
+        if ev[0] == "call" and re.search(r"(mem::take|mem::replace|mem::swap|Option::take|Option<.*>::take)$", mir.strip_generics(ev[1])) and ev[2]:
+            for t in ev[2][0]:
+                root, path = refs.term_path(t)
+                if root == ("param", 2) and path:
+                    moves.setdefault(path.split("/")[0], []).append(ev)
+    nord = 0
+    for (path, root, ns, which, kpath, kroot, lk, ev) in rw:
+        if ns is None or which != "#1" or root != ("param", 2) or not path:
+            continue
+        field = path.split("/")[0]
+        rt = top_of(ev[3])
+        if len(rt) != 1:
+            continue
+        for mv in moves.get(field, []):
+            mt = top_of(mv[3])
+            if len(mt) != 1:
+                continue
+            nord += 1
+            (rb, rf), (mb, mfid) = rt[0], mt[0]
+            if rf == mfid:
+                continue
+            if not b0.dominates(rb, mb):
+                chk.add(Finding("R09-order", "R09-order::%s::%s" % (path, mfid.split("::")[-1]), "%s moves %s out of the merged-in module before %s rewrites the reference %s (-> %s): the moved copy keeps the old name and silently points to the destination module's element" % (mfid, field, rf, path, ns), b0.where(b0.blocks[mb]["t"]["ln"])))
+    chk.rule("R09-order", "reference sites of the merged-in module rewritten before the holder field is moved to the destination (pairs of rename step / move step)", nord, floor=30)
+
     # control dependence of the rewrites
     nctrl = 0
     A = mf.A
